@@ -38,7 +38,10 @@ def _as_str(I, ci, s):
 
 @model('String::len', 'str::len')
 def _len(I, ci, s):
-    return sum(C.width(W(I), c) for c in chars_of(s))
+    t = 0
+    for c in chars_of(s):
+        t = t + C.width_expr(c)
+    return t
 
 
 @model('String::is_empty', 'str::is_empty')
@@ -95,17 +98,21 @@ def _into_boxed(I, ci, s):
 
 def byte_to_char_index(I, cs, n, what='byte index'):
     """translate a byte offset to a char offset; panics when inside a char / out of range"""
-    n = W(I).concretize_int(n, what=what)
+    w = W(I)
     pos = 0
     for k, c in enumerate(cs):
-        if pos == n:
+        if w.branch(zb(pos == n)):
             return k
-        if pos > n:
-            break
-        pos += C.width(W(I), c)
-    if pos == n:
+        if w.branch(zb(pos > n)):
+            raise Panic('%s is not a char boundary' % what)
+        pos = pos + C.width_expr(c)
+    if w.branch(zb(pos == n)):
         return len(cs)
-    raise Panic('%s %d is not a char boundary / out of range' % (what, n))
+    raise Panic('%s is not a char boundary / out of range' % what)
+
+
+def zb(c):
+    return c
 
 
 @model('String::truncate')
@@ -113,30 +120,16 @@ def _truncate(I, ci, s, n):
     o = peel(s)
     w = W(I)
     total = 0
-    widths = []
     for c in o.chars:
-        x = C.width(w, c)
-        widths.append(x)
-        total += x
-    # new_len <= len ? (symbolic n allowed)
-    if isinstance(n, int):
-        if n > total:
-            return UNIT
-    else:
-        if w.branch(n >= total):
-            return UNIT
-        n = w.concretize_int(n, what='truncate length')
-    pos = 0
-    for k, x in enumerate(widths):
-        if pos == n:
-            del o.chars[k:]
-            return UNIT
-        if pos > n:
-            break
-        pos += x
-    if pos == n:
+        total = total + C.width_expr(c)
+    if w.branch(n >= total):
         return UNIT
-    raise Panic('String::truncate: new_len %d does not lie on a char boundary' % n)
+    try:
+        k = byte_to_char_index(I, o.chars, n, 'String::truncate new_len')
+    except Panic:
+        raise Panic('String::truncate: new_len does not lie on a char boundary')
+    del o.chars[k:]
+    return UNIT
 
 
 # ------------------------------------------------------------------ case
@@ -405,7 +398,10 @@ def _contains(I, ci, s, p):
 
 
 def char_to_byte(I, cs, k):
-    return sum(C.width(W(I), c) for c in cs[:k])
+    t = 0
+    for c in cs[:k]:
+        t = t + C.width_expr(c)
+    return t
 
 
 @model('str::find')
@@ -498,13 +494,14 @@ def _repeat(I, ci, s, n):
 @model('str::is_char_boundary')
 def _is_char_boundary(I, ci, s, n):
     cs = chars_of(s)
-    n = W(I).concretize_int(n, what='boundary index')
     pos = 0
+    conds = []
     for c in cs:
-        if pos == n:
-            return True
-        pos += C.width(W(I), c)
-    return pos == n
+        conds.append(pos == n)
+        pos = pos + C.width_expr(c)
+    conds.append(pos == n)
+    from models import disj
+    return disj(conds)
 
 
 def slice_bytes(I, cs, a, b):
@@ -572,7 +569,7 @@ def _char_indices(I, ci, s):
     pos = 0
     for c in cs:
         out.append(Tuple(pos, c))
-        pos += C.width(W(I), c)
+        pos = pos + C.width_expr(c)
     return ListIter(out, kind='CharIndices')
 
 
